@@ -5,11 +5,13 @@ import (
 	"path/filepath"
 	"sort"
 
+	"github.com/PowerDNS/lightningstream/lmdbenv"
 	"github.com/PowerDNS/lightningstream/lmdbenv/header"
 	"github.com/PowerDNS/lightningstream/lmdbenv/strategy"
 	"github.com/PowerDNS/lightningstream/snapshot"
 	"github.com/PowerDNS/lightningstream/syncer"
 	"github.com/PowerDNS/lmdb-go/lmdb"
+	"github.com/c2h5oh/datasize"
 )
 
 func init() { Commands["c02"] = cmdC02 }
@@ -219,7 +221,7 @@ func ordersOnLMDB(R *Result, rows []mergeRow, beats map[[2]Ver]bool, concs []Con
 		if i.XF {
 			continue
 		}
-		if tierName == "quick" && i.TS > 2 {
+		if (tierName == "quick" && i.TS > 2) || i.TS > 3 || i.Val > 2 {
 			continue
 		}
 		ins3 = append(ins3, i)
@@ -267,14 +269,22 @@ func ordersOnLMDB(R *Result, rows []mergeRow, beats map[[2]Ver]bool, concs []Con
 		if tierName == "quick" && ci == 2 {
 			continue // multi-kilobyte values only in the thorough tier for the order test
 		}
-		env, dir, err := TempEnv()
+		ncases := len(cases)
+		if ci == 2 {
+			ncases = nPairs // multi-kilobyte values: pairs only
+		}
+		dir, err := makeTempDir()
+		if err != nil {
+			return err
+		}
+		env, err := lmdbenv.NewWithOptions(dir, lmdbenv.Options{Create: true, MapSize: 24 * datasize.GB})
 		if err != nil {
 			return err
 		}
 		type kref struct{ ci, pi int }
 		var keys [][]byte
 		var refs []kref
-		for i, kc := range cases {
+		for i, kc := range cases[:ncases] {
 			for pi := range perms(len(kc.vers)) {
 				k := make([]byte, 8)
 				k[0] = byte(i >> 24)
@@ -355,7 +365,7 @@ func ordersOnLMDB(R *Result, rows []mergeRow, beats map[[2]Ver]bool, concs []Con
 			return err
 		}
 		ki := 0
-		for i, kc := range cases {
+		for i, kc := range cases[:ncases] {
 			np := len(perms(len(kc.vers)))
 			vs := []Ver{kc.old}
 			for _, in := range kc.vers {
@@ -380,7 +390,7 @@ func ordersOnLMDB(R *Result, rows []mergeRow, beats map[[2]Ver]bool, concs []Con
 			ki += np
 			_ = i
 		}
-		R.Distinct += len(cases)
+		R.Distinct += ncases
 		// re-merging everything once more must not record a transaction (quiescence at the merge level)
 		info0, _ := env.Info()
 		err = env.Update(func(txn *lmdb.Txn) error {
